@@ -174,6 +174,23 @@ theorem tok_congr (a b : St) (h : TokInv a)
   · intro i; left; simp [futOf, *]
   · intro i _; have := (hpc i).1; simp [nw, *]
 
+/-- the end of the pass made after flagging only relabels the program counter: the work id in the manager's
+    hands at `addAcq i` is the one in its hands at `addAcqF i`; `wait` and `jAcq1` hold none -/
+theorem tok_mAfterAddF (Y : St) (h : TokInv Y) : TokInv (mAfterAddF Y) := by
+  unfold mAfterAddF
+  split
+  · rename_i i hpc
+    refine tok_congr Y _ h (by simp) ?_
+    intro j; rw [hpc]; simp [mPreC, mPostC]
+  · split
+    · refine tok_congr Y _ h (by simp) ?_
+      intro j; simp
+    · exact h
+  · exact h
+
+theorem tok_mAddF (X : St) (h : TokInv { X with mpc := .none }) : TokInv (mAddF X) :=
+  tok_mAfterAddF _ (tok_mAdd X h)
+
 theorem tok_mAfterFlag (X : St) (h : TokInv { X with mpc := .none }) : TokInv (mAfterFlag X) := by
   unfold mAfterFlag
   split
@@ -184,7 +201,7 @@ theorem tok_mAfterFlag (X : St) (h : TokInv { X with mpc := .none }) : TokInv (m
     · intro i; simp
   · split
     · tok_simple _, h
-    · exact tok_mAdd X h
+    · exact tok_mAddF X h
 
 /-- a result message in the manager's hands means the future was dispatched -/
 theorem fut_of_mpc (s : St) (h : TokInv s) (w : Wid) (hw : mPostC w s.mpc = 1) :
